@@ -168,3 +168,12 @@ Example ex_c06_nonvacuous :
   /\ infer 3 vs = Some (TTypedDict [("a"%string, TCls cInt)] [("b"%string, TCls cStr); ("c"%string, TCls cNone)])
   /\ td_boundedb 3 (TTypedDict [("a"%string, TCls cInt)] [("b"%string, TCls cStr); ("c"%string, TCls cNone)]) = true.
 Proof. vm_compute. repeat split; reflexivity. Qed.
+
+(* the limit in force at merge time bounds every TypedDict the merge itself builds, whatever limit the merged types
+   were recorded under (a configuration lowered between `run` and `stub`) *)
+From MT Require TdMergeLimit.
+Theorem td_merge_top_limit :
+  forall k ts r o, forallb is_td ts = true -> shrink_top k ts = Some (TTypedDict r o) ->
+                   List.length r + List.length o <= k.
+Proof. exact TdMergeLimit.td_merge_top_limit. Qed.
+Print Assumptions td_merge_top_limit.
